@@ -125,3 +125,7 @@ MUTANTS += [
  {"id": "probe-plist-arg-cursor-steps-two", "kind": "break", "edits": [("src/plist.rs", "                    idx += 1;", "                    idx += 2;")], "expect": ["PANIC@plist::PlistEntry::from_bytes"]},
  {"id": "probe-pattern-group-cut-before-closing-brace", "kind": "break", "edits": [("src/pattern.rs", "let (matches, last) = rest.split_at(n + 1);", "let (matches, last) = rest.split_at(n);")], "expect": ["PANIC@pattern::Pattern::alternate_match"]},
 ]
+MUTANTS += [
+ {"id": "branch-tail-slices-benign", "kind": "benign", "edits": [{"patch": "/verif/benign/h5-dewey-2/patch.diff"}]},
+ {"id": "branch-tail-slice-on-the-wrong-branch", "kind": "break", "edits": [{"patch": "/verif/benign/h5-dewey-2/patch.diff"}, ("src/dewey.rs", "        Ordering::Less => {\n            if let Some(&r) = rhs.version[llen..]", "        Ordering::Greater => {\n            if let Some(&r) = rhs.version[llen..]"), ("src/dewey.rs", "        Ordering::Greater => {\n            if let Some(&l) = lhs.version[rlen..]", "        Ordering::Less => {\n            if let Some(&l) = lhs.version[rlen..]")], "expect": ["PANIC@dewey::dewey_cmp"]},
+]
